@@ -28,7 +28,7 @@ import (
 
 const rule = "a case is one logger life in a fresh process: 1-32 producer goroutines, 1-4 level phases (global level, per-package levels for 4 call-site directories, " +
 	"initial levels from the -log/-plog flags, some phases with level changes racing with the producers), 96 call sites (directory x plain/f/tracer-method x severity), " +
-	"unique lines, texts without identity (empty, blank, line breaks only) and with trailing/embedded line breaks or 1-40 kB long, runs of identical lines, A-B-A repeats, texts shared by goroutines, equal texts from different call sites, context tracers (0-6 lines, optionally collected by 3 goroutines); " +
+	"unique lines, texts without identity (empty, blank, line breaks only) and with trailing/embedded line breaks or 1-40 kB long, runs of identical lines, A-B-A repeats, texts shared by goroutines, equal texts from different call sites, context tracers (0-6 lines, one in ten 31-500 lines, optionally collected by 3 goroutines); " +
 	"writer free-running or externally triggered (periods 0-20 ms, or withheld until > 1024 lines are queued, or never), adapter delayed or held inside Write until all producers are parked; " +
 	"Shutdown after all producers finished or after a PRNG-chosen number of returned calls. Families: free, free-hold, sched, sched-withheld, small, squeeze (GOMAXPROCS 1-2 + busy goroutines during Shutdown), twin (plain lines through a nil tracer and tracer submissions with the same call site and main text logged back to back, 1-3 goroutines, writer triggered only after everything is queued), idle (free-running writer; at every barrier the adapter is held inside the final Write of a batch while more lines are logged, then released, then an idle verdict from a goroutine dump). In 2 of 5 cases 2-3 goroutines call Shutdown concurrently. " +
 	"distinct = distinct scenario signatures (family, build, producers, lines, levels per phase, shutdown moment); non-trivial = at least 10 log calls and at least one line delivered"
@@ -283,6 +283,7 @@ func main() {
 		rep.Floor(rep.Counter("submissions_after_plain_lines_of_same_goroutine") >= 200, "submissions_after_plain_lines_of_same_goroutine=%d", rep.Counter("submissions_after_plain_lines_of_same_goroutine"))
 		rep.Floor(rep.Counter("global_level_changes_with_pkg_levels_untouched") >= 8, "global_level_changes_with_pkg_levels_untouched=%d", rep.Counter("global_level_changes_with_pkg_levels_untouched"))
 		rep.Floor(rep.Counter("odd_text_lines") >= 2000 && rep.Counter("odd_text_submissions") >= 100, "odd_text_lines=%d odd_text_submissions=%d", rep.Counter("odd_text_lines"), rep.Counter("odd_text_submissions"))
+		rep.Floor(rep.Counter("tracer_blocks_with_31_to_500_lines") >= 100, "tracer_blocks_with_31_to_500_lines=%d", rep.Counter("tracer_blocks_with_31_to_500_lines"))
 		rep.Floor(rep.Counter("cases_shutdown_mid") >= 5, "cases_shutdown_mid=%d", rep.Counter("cases_shutdown_mid"))
 		rep.Floor(rep.Counter("lines_below_level") >= 1000 && rep.Counter("lines_must") >= 10000, "lines: must=%d below=%d", rep.Counter("lines_must"), rep.Counter("lines_below_level"))
 	}
